@@ -43,7 +43,7 @@ try:
     with concurrent.futures.ThreadPoolExecutor(max_workers=5) as ex:
         done = list(ex.map(runp, props))
     for p, pr, o in done:
-        viol = [l for l in o.splitlines() if l.startswith("  violation:")]
+        viol = [l for l in o.splitlines() if "violation:" in l]
         verdict = "DETECTED" if pr.returncode == 1 else ("missed" if pr.returncode == 0 else "BROKEN(rc=%d)" % pr.returncode)
         out[p] = {"rc": pr.returncode, "verdict": verdict, "first": viol[0].strip() if viol else ""}
         print("  check %s -> %s %s" % (p, verdict, viol[0].strip()[:160] if viol else (o.strip().splitlines()[-1][:200] if pr.returncode == 2 else "")), flush=True)
